@@ -6,6 +6,8 @@ From Koreo Require Import Json Encode CelLit.
 From Coq Require Import Lia Decimal DecimalPos DecimalZ.
 Local Open Scope nat_scope.
 Local Open Scope list_scope.
+(* Decimal also defines [norm] and [rev] (on decimal numbers) *)
+Local Notation norm := CelLit.norm (only parsing).
 
 (* ------------------------------------------------------------------ *)
 (* generic list facts                                                  *)
@@ -427,3 +429,518 @@ Proof.
   - simpl strip_minus.
     apply numeral_unsigned_digits; [now apply text_of_uint_nonnil|apply text_of_uint_digits].
 Qed.
+
+(* ------------------------------------------------------------------ *)
+(* boolean side conditions on containers, as Forall                    *)
+(* ------------------------------------------------------------------ *)
+
+Lemma in_range_map kvs :
+  in_range (JMap kvs) = true <-> Forall (fun kv => in_range (snd kv) = true) kvs.
+Proof.
+  induction kvs as [|[k x] kvs IH]; simpl; [split; auto|].
+  rewrite Bool.andb_true_iff. simpl in IH. rewrite IH. split.
+  - intros [H1 H2]. now constructor.
+  - intros H. inversion H; subst. now split.
+Qed.
+
+Lemma no_leading_eq_map kvs :
+  no_leading_eq (JMap kvs) = true <-> Forall (fun kv => no_leading_eq (snd kv) = true) kvs.
+Proof.
+  induction kvs as [|[k x] kvs IH]; simpl; [split; auto|].
+  rewrite Bool.andb_true_iff. simpl in IH. rewrite IH. split.
+  - intros [H1 H2]. now constructor.
+  - intros H. inversion H; subst. now split.
+Qed.
+
+Lemma wf_map kvs :
+  wf (JMap kvs) = true <->
+  nodup_str (map fst kvs) = true /\ Forall (fun kv => wf (snd kv) = true) kvs.
+Proof.
+  simpl. rewrite Bool.andb_true_iff.
+  assert (forall l : list (string * json),
+            (fix go (l : list (string * json)) : bool :=
+               match l with [] => true | (_, v) :: r => wf v && go r end) l = true <->
+            Forall (fun kv => wf (snd kv) = true) l) as H.
+  { induction l as [|[k x] l IH]; [split; auto|].
+    rewrite Bool.andb_true_iff, IH. split.
+    - intros [H1 H2]. now constructor.
+    - intros H. inversion H; subst. now split. }
+  now rewrite H.
+Qed.
+
+Lemma forallb_Forall {A} (f : A -> bool) l : forallb f l = true <-> Forall (fun x => f x = true) l.
+Proof.
+  induction l as [|x l IH]; simpl; [split; auto|].
+  rewrite Bool.andb_true_iff, IH. split.
+  - intros [H1 H2]. now constructor.
+  - intros H. inversion H; subst. now split.
+Qed.
+
+(* ------------------------------------------------------------------ *)
+(* lexing the encoding of a whole value                                *)
+(* ------------------------------------------------------------------ *)
+
+Fixpoint lapp (ts : list token) (r : lexres) : lexres :=
+  match ts with [] => r | t :: ts' => lcons t (lapp ts' r) end.
+
+Lemma lapp_app a b r : lapp (a ++ b) r = lapp a (lapp b r).
+Proof. induction a as [|t a IH]; simpl; [reflexivity|now rewrite IH]. Qed.
+
+Fixpoint sep_concat (l : list (list token)) : list token :=
+  match l with
+  | [] => []
+  | [x] => x
+  | x :: r => x ++ TComma :: sep_concat r
+  end.
+
+Lemma lex_null r : delim_start r = true -> lex 0 (txt "null" ++ r) = lcons TNull (lex 0 r).
+Proof. destruct r as [|d r]; [reflexivity|]. simpl delim_start. bytes d; try discriminate; reflexivity. Qed.
+
+Lemma lex_true r : delim_start r = true -> lex 0 (txt "true" ++ r) = lcons TTrue (lex 0 r).
+Proof. destruct r as [|d r]; [reflexivity|]. simpl delim_start. bytes d; try discriminate; reflexivity. Qed.
+
+Lemma lex_false r : delim_start r = true -> lex 0 (txt "false" ++ r) = lcons TFalse (lex 0 r).
+Proof. destruct r as [|d r]; [reflexivity|]. simpl delim_start. bytes d; try discriminate; reflexivity. Qed.
+
+Definition scalar_tok (s : string) : token :=
+  match numeral_kind (txt s) with
+  | Some k => num_tok k (txt s)
+  | None => str_tok (txt s)
+  end.
+
+Section RoundTrip.
+  Variable fprint : Z -> Z -> text.
+  (* repr(float) of a finite double is a numeral with fraction or exponent ... *)
+  Hypothesis fprint_numeral :
+    forall m e, float_ok m e = true -> numeral_kind (fprint m e) = Some KFloat.
+  (* ... that float() reads back as the same double *)
+  Hypothesis fprint_parse :
+    forall m e, float_ok m e = true -> fparse (fprint m e) = Some (m, e).
+
+  Notation encode := (encode fprint).
+
+  (* the token sequence of an encoded value *)
+  Fixpoint tokens (v : json) : list token :=
+    match v with
+    | JNull => [TNull]
+    | JBool true => [TTrue]
+    | JBool false => [TFalse]
+    | JInt z => [TInt (print_Z z)]
+    | JFloat m e => [TFloat (fprint m e)]
+    | JStr s => [scalar_tok s]
+    | JList l => TLBrack :: sep_concat (map tokens l) ++ [TRBrack]
+    | JMap kvs =>
+        TLBrace ::
+        sep_concat (map (fun kx => let '(k, x) := kx in str_tok (txt k) :: TColon :: tokens x) kvs)
+        ++ [TRBrace]
+    end.
+
+  Definition enc_entry (kx : string * json) : text :=
+    encode_str (txt (fst kx)) ++ ":"%char :: encode (snd kx).
+
+  Definition tok_entry (kx : string * json) : list token :=
+    str_tok (txt (fst kx)) :: TColon :: tokens (snd kx).
+
+  Lemma encode_map kvs :
+    encode (JMap kvs) = "{"%char :: join_comma (map enc_entry kvs) ++ ["}"%char].
+  Proof.
+    simpl. do 3 f_equal. induction kvs as [|[k x] kvs IH]; [reflexivity|].
+    simpl. now rewrite IH.
+  Qed.
+
+  Lemma tokens_map kvs :
+    tokens (JMap kvs) = TLBrace :: sep_concat (map tok_entry kvs) ++ [TRBrace].
+  Proof.
+    simpl. do 3 f_equal. induction kvs as [|[k x] kvs IH]; [reflexivity|].
+    simpl. now rewrite IH.
+  Qed.
+
+  Definition lex_ok (v : json) : Prop :=
+    forall r, delim_start r = true -> lex 0 (encode v ++ r) = lapp (tokens v) (lex 0 r).
+
+  Lemma lex_scalar_str s :
+    no_leading_eq (JStr s) = true -> lex_ok (JStr s).
+  Proof.
+    intros Hq r Hr. simpl in Hq. cbn [encode tokens lapp]. unfold encode_scalar_str, scalar_tok.
+    destruct (numeral_kind (txt s)) as [k|] eqn:Ek.
+    - now apply lex_numeral.
+    - destruct (txt s) as [|c t] eqn:Es.
+      + exact (lex_encode_str [] r Hr).
+      + rewrite <- Es in *. apply Bool.negb_true_iff in Hq. rewrite Hq.
+        now apply lex_encode_str.
+  Qed.
+
+  Lemma lex_items l close ctok r :
+    Forall lex_ok l ->
+    is_delim close = true ->
+    (forall t, lex 0 (close :: t) = lcons ctok (lex 0 t)) ->
+    lex 0 (join_comma (map encode l) ++ close :: r) =
+    lapp (sep_concat (map tokens l)) (lcons ctok (lex 0 r)).
+  Proof.
+    intros Hl Hc Hclose. induction Hl as [|x l Hx Hl IH]; [apply Hclose|].
+    destruct l as [|y l].
+    - cbn [map join_comma sep_concat]. rewrite (Hx (close :: r)) by exact Hc.
+      now rewrite Hclose.
+    - change (join_comma (map encode (x :: y :: l)))
+        with (encode x ++ ","%char :: join_comma (map encode (y :: l))).
+      change (sep_concat (map tokens (x :: y :: l)))
+        with (tokens x ++ TComma :: sep_concat (map tokens (y :: l))).
+      rewrite <- app_assoc, <- app_comm_cons. rewrite (Hx _) by reflexivity.
+      rewrite lapp_app. cbn [lapp]. f_equal.
+      change (lex 0 (","%char :: join_comma (map encode (y :: l)) ++ close :: r))
+        with (lcons TComma (lex 0 (join_comma (map encode (y :: l)) ++ close :: r))).
+      now rewrite IH.
+  Qed.
+
+  Lemma lex_entry kx :
+    lex_ok (snd kx) ->
+    forall r, delim_start r = true ->
+    lex 0 (enc_entry kx ++ r) = lapp (tok_entry kx) (lex 0 r).
+  Proof.
+    intros Hx r Hr. unfold enc_entry, tok_entry. rewrite <- app_assoc, <- app_comm_cons.
+    rewrite lex_encode_str by reflexivity. cbn [lapp]. f_equal.
+    change (lex 0 (":"%char :: encode (snd kx) ++ r))
+      with (lcons TColon (lex 0 (encode (snd kx) ++ r))).
+    now rewrite (Hx r Hr).
+  Qed.
+
+  Lemma lex_entries kvs r :
+    Forall (fun kx => lex_ok (snd kx)) kvs ->
+    lex 0 (join_comma (map enc_entry kvs) ++ "}"%char :: r) =
+    lapp (sep_concat (map tok_entry kvs)) (lcons TRBrace (lex 0 r)).
+  Proof.
+    intros Hl. induction Hl as [|x l Hx Hl IH]; [reflexivity|].
+    destruct l as [|y l].
+    - cbn [map join_comma sep_concat]. now rewrite (lex_entry x Hx) by reflexivity.
+    - change (join_comma (map enc_entry (x :: y :: l)))
+        with (enc_entry x ++ ","%char :: join_comma (map enc_entry (y :: l))).
+      change (sep_concat (map tok_entry (x :: y :: l)))
+        with (tok_entry x ++ TComma :: sep_concat (map tok_entry (y :: l))).
+      rewrite <- app_assoc, <- app_comm_cons. rewrite (lex_entry x Hx) by reflexivity.
+      rewrite lapp_app. cbn [lapp]. f_equal.
+      change (lex 0 (","%char :: join_comma (map enc_entry (y :: l)) ++ "}"%char :: r))
+        with (lcons TComma (lex 0 (join_comma (map enc_entry (y :: l)) ++ "}"%char :: r))).
+      now rewrite IH.
+  Qed.
+
+  (* [lex_encode] *)
+  Theorem lex_encode v :
+    in_range v = true -> no_leading_eq v = true -> lex_ok v.
+  Proof.
+    induction v as [| b | z | m e | s | l IH | kvs IH] using json_ind'; intros Hr Hq.
+    - intros r Hd. now apply lex_null.
+    - intros r Hd. destruct b; [now apply lex_true|now apply lex_false].
+    - intros r Hd. cbn [encode tokens lapp].
+      exact (lex_numeral _ KInt r (print_Z_numeral z) Hd).
+    - intros r Hd. cbn [encode tokens lapp].
+      exact (lex_numeral _ KFloat r (fprint_numeral m e Hr) Hd).
+    - now apply lex_scalar_str.
+    - intros r Hd. simpl in Hr, Hq.
+      apply forallb_Forall in Hr. apply forallb_Forall in Hq.
+      assert (Forall lex_ok l) as Hl.
+      { rewrite Forall_forall in *. intros x Hx. apply IH; auto. }
+      cbn [encode tokens]. rewrite <- app_comm_cons, <- app_assoc.
+      change (lex 0 ("["%char :: join_comma (map encode l) ++ ["]"%char] ++ r))
+        with (lcons TLBrack (lex 0 (join_comma (map encode l) ++ "]"%char :: r))).
+      rewrite (lex_items l "]"%char TRBrack r Hl) by reflexivity.
+      cbn [lapp]. f_equal. rewrite lapp_app. reflexivity.
+    - intros r Hd. apply in_range_map in Hr. apply no_leading_eq_map in Hq.
+      assert (Forall (fun kx => lex_ok (snd kx)) kvs) as Hl.
+      { rewrite Forall_forall in *. intros x Hx. apply IH; auto. }
+      rewrite encode_map, tokens_map. rewrite <- app_comm_cons, <- app_assoc.
+      change (lex 0 ("{"%char :: join_comma (map enc_entry kvs) ++ ["}"%char] ++ r))
+        with (lcons TLBrace (lex 0 (join_comma (map enc_entry kvs) ++ "}"%char :: r))).
+      rewrite (lex_entries kvs r Hl).
+      cbn [lapp]. f_equal. rewrite lapp_app. reflexivity.
+  Qed.
+
+  (* ---------------------------------------------------------------- *)
+  (* parsing the token sequence                                        *)
+  (* ---------------------------------------------------------------- *)
+
+  Fixpoint ast_of (v : json) : ast :=
+    match v with
+    | JNull => ALit TNull
+    | JBool true => ALit TTrue
+    | JBool false => ALit TFalse
+    | JInt z => ALit (TInt (print_Z z))
+    | JFloat m e => ALit (TFloat (fprint m e))
+    | JStr s => ALit (scalar_tok s)
+    | JList l => AList (map ast_of l)
+    | JMap kvs =>
+        AMap (map (fun kx => let '(k, x) := kx in (ALit (str_tok (txt k)), ast_of x)) kvs)
+    end.
+
+  Definition ast_entry (kx : string * json) : ast * ast :=
+    (ALit (str_tok (txt (fst kx))), ast_of (snd kx)).
+
+  Lemma ast_of_map kvs : ast_of (JMap kvs) = AMap (map ast_entry kvs).
+  Proof.
+    simpl. f_equal. induction kvs as [|[k x] kvs IH]; [reflexivity|]. simpl. now rewrite IH.
+  Qed.
+
+  Definition want (st : pstate) : Prop := st = PWantVal \/ st = PWantValOrClose.
+
+  Definition after (stk : list frame) (a : ast) (r : list token) : pres :=
+    run (fst (reduce stk a)) (snd (reduce stk a)) r.
+
+  Definition parse_ok (v : json) : Prop :=
+    forall stk st r, want st -> run stk st (tokens v ++ r) = after stk (ast_of v) r.
+
+  Lemma run_lit tok stk st r :
+    is_lit tok = true -> want st -> run stk st (tok :: r) = after stk (ALit tok) r.
+  Proof.
+    intros Hl [-> | ->]; unfold after; cbn [run]; rewrite Hl;
+      destruct (reduce stk (ALit tok)); reflexivity.
+  Qed.
+
+  Lemma str_tok_lit t : is_lit (str_tok t) = true.
+  Proof. unfold str_tok. destruct (existsb needs_escape t); [reflexivity|]. now destruct (has_quote t). Qed.
+
+  Lemma scalar_tok_lit s : is_lit (scalar_tok s) = true.
+  Proof.
+    unfold scalar_tok. destruct (numeral_kind (txt s)) as [[|]|]; try reflexivity. apply str_tok_lit.
+  Qed.
+
+  Lemma run_close_list stk done r :
+    run (FL done :: stk) PAfterItem (TRBrack :: r) = after stk (AList (List.rev done)) r.
+  Proof. unfold after. cbn [run]. destruct (reduce stk (AList (List.rev done))); reflexivity. Qed.
+
+  Lemma run_close_map stk done r :
+    run (FM done None :: stk) PAfterItem (TRBrace :: r) = after stk (AMap (List.rev done)) r.
+  Proof. unfold after. cbn [run]. destruct (reduce stk (AMap (List.rev done))); reflexivity. Qed.
+
+  Lemma run_empty_list stk r :
+    run (FL [] :: stk) PWantValOrClose (TRBrack :: r) = after stk (AList []) r.
+  Proof. unfold after. cbn [run is_lit]. destruct (reduce stk (AList [])); reflexivity. Qed.
+
+  Lemma run_empty_map stk r :
+    run (FM [] None :: stk) PWantValOrClose (TRBrace :: r) = after stk (AMap []) r.
+  Proof. unfold after. cbn [run is_lit]. destruct (reduce stk (AMap [])); reflexivity. Qed.
+
+  Lemma parse_items l stk r :
+    Forall parse_ok l -> l <> [] ->
+    forall done st, want st ->
+    run (FL done :: stk) st (sep_concat (map tokens l) ++ TRBrack :: r) =
+    after stk (AList (List.rev done ++ map ast_of l)) r.
+  Proof.
+    intros Hl. induction Hl as [|x l Hx Hl IH]; [congruence|]. intros _ done st Hst.
+    destruct l as [|y l].
+    - cbn [map sep_concat]. rewrite (Hx _ _ _ Hst). unfold after at 1. cbn [reduce fst snd].
+      rewrite run_close_list. reflexivity.
+    - change (sep_concat (map tokens (x :: y :: l)))
+        with (tokens x ++ TComma :: sep_concat (map tokens (y :: l))).
+      rewrite <- app_assoc, <- app_comm_cons. rewrite (Hx _ _ _ Hst).
+      unfold after at 1. cbn [reduce fst snd].
+      change (run (FL (ast_of x :: done) :: stk) PAfterItem
+                (TComma :: sep_concat (map tokens (y :: l)) ++ TRBrack :: r))
+        with (run (FL (ast_of x :: done) :: stk) PWantVal
+                (sep_concat (map tokens (y :: l)) ++ TRBrack :: r)).
+      rewrite IH by (try discriminate; now left).
+      cbn [List.rev map]. now rewrite <- app_assoc.
+  Qed.
+
+  Lemma parse_entry kx stk done st r :
+    parse_ok (snd kx) -> want st ->
+    run (FM done None :: stk) st (tok_entry kx ++ r) =
+    run (FM (ast_entry kx :: done) None :: stk) PAfterItem r.
+  Proof.
+    intros Hx Hst. unfold tok_entry. rewrite <- !app_comm_cons.
+    rewrite (run_lit _ _ _ _ (str_tok_lit _) Hst). unfold after. cbn [reduce fst snd].
+    change (run (FM done (Some (ALit (str_tok (txt (fst kx))))) :: stk) PAfterKey
+              (TColon :: tokens (snd kx) ++ r))
+      with (run (FM done (Some (ALit (str_tok (txt (fst kx))))) :: stk) PWantVal
+              (tokens (snd kx) ++ r)).
+    rewrite (Hx _ _ _ (or_introl eq_refl)). unfold after. reflexivity.
+  Qed.
+
+  Lemma parse_entries kvs stk r :
+    Forall (fun kx => parse_ok (snd kx)) kvs -> kvs <> [] ->
+    forall done st, want st ->
+    run (FM done None :: stk) st (sep_concat (map tok_entry kvs) ++ TRBrace :: r) =
+    after stk (AMap (List.rev done ++ map ast_entry kvs)) r.
+  Proof.
+    intros Hl. induction Hl as [|x l Hx Hl IH]; [congruence|]. intros _ done st Hst.
+    destruct l as [|y l].
+    - cbn [map sep_concat]. rewrite (parse_entry x _ _ _ _ Hx Hst).
+      rewrite run_close_map. reflexivity.
+    - change (sep_concat (map tok_entry (x :: y :: l)))
+        with (tok_entry x ++ TComma :: sep_concat (map tok_entry (y :: l))).
+      rewrite <- app_assoc, <- app_comm_cons. rewrite (parse_entry x _ _ _ _ Hx Hst).
+      change (run (FM (ast_entry x :: done) None :: stk) PAfterItem
+                (TComma :: sep_concat (map tok_entry (y :: l)) ++ TRBrace :: r))
+        with (run (FM (ast_entry x :: done) None :: stk) PWantVal
+                (sep_concat (map tok_entry (y :: l)) ++ TRBrace :: r)).
+      rewrite IH by (try discriminate; now left).
+      cbn [List.rev map]. now rewrite <- app_assoc.
+  Qed.
+
+  (* [parse_tokens_encode] *)
+  Theorem parse_tokens_encode v : parse_ok v.
+  Proof.
+    induction v as [| b | z | m e | s | l IH | kvs IH] using json_ind'; intros stk st r Hst.
+    - now apply run_lit.
+    - destruct b; now apply run_lit.
+    - now apply run_lit.
+    - now apply run_lit.
+    - apply run_lit; [apply scalar_tok_lit|exact Hst].
+    - cbn [tokens ast_of]. rewrite <- app_comm_cons, <- app_assoc.
+      assert (run stk st (TLBrack :: sep_concat (map tokens l) ++ [TRBrack] ++ r) =
+              run (FL [] :: stk) PWantValOrClose (sep_concat (map tokens l) ++ TRBrack :: r)) as ->
+        by (destruct Hst as [-> | ->]; reflexivity).
+      destruct l as [|x l].
+      + apply run_empty_list.
+      + rewrite (parse_items (x :: l) stk r IH) by (try discriminate; now right). reflexivity.
+    - rewrite tokens_map, ast_of_map. rewrite <- app_comm_cons, <- app_assoc.
+      assert (run stk st (TLBrace :: sep_concat (map tok_entry kvs) ++ [TRBrace] ++ r) =
+              run (FM [] None :: stk) PWantValOrClose (sep_concat (map tok_entry kvs) ++ TRBrace :: r)) as ->
+        by (destruct Hst as [-> | ->]; reflexivity).
+      destruct kvs as [|x l].
+      + apply run_empty_map.
+      + rewrite (parse_entries (x :: l) stk r IH) by (try discriminate; now right). reflexivity.
+  Qed.
+
+  (* ---------------------------------------------------------------- *)
+  (* evaluating the literal nodes                                      *)
+  (* ---------------------------------------------------------------- *)
+
+  Lemma str_txt s : str (txt s) = s.
+  Proof. apply string_of_list_ascii_of_string. Qed.
+
+  Lemma str_tok_shape t : exists ml, str_tok t = TStr ml (tok_body (str_tok t)).
+  Proof.
+    unfold str_tok. destruct (existsb needs_escape t); [now exists false|].
+    destruct (has_quote t); [now exists true|now exists false].
+  Qed.
+
+  Lemma eval_str_tok t : eval_token (str_tok t) = ROk (JStr (str t)).
+  Proof.
+    destruct (str_tok_shape t) as [ml E]. rewrite E. cbn [eval_token].
+    now rewrite unescape_str_tok.
+  Qed.
+
+  Lemma eval_key_str_tok t : eval_key (ALit (str_tok t)) = ROk (str t).
+  Proof.
+    destruct (str_tok_shape t) as [ml E]. rewrite E. cbn [eval_key].
+    now rewrite unescape_str_tok.
+  Qed.
+
+  Lemma eval_scalar_tok s :
+    str_in_range s = true -> eval_token (scalar_tok s) = ROk (norm_str s).
+  Proof.
+    unfold str_in_range, scalar_tok, norm_str.
+    destruct (numeral_kind (txt s)) as [[|]|]; cbn [num_tok eval_token].
+    - now intros ->.
+    - destruct (fparse (txt s)) as [[m e]|]; [reflexivity|discriminate].
+    - intros _. now rewrite eval_str_tok, str_txt.
+  Qed.
+
+  Definition eval_ok (v : json) : Prop := eval (ast_of v) = ROk (norm v).
+
+  Definition norm_entry (kx : string * json) : string * json := (fst kx, norm (snd kx)).
+
+  Lemma norm_map kvs : norm (JMap kvs) = JMap (map norm_entry kvs).
+  Proof.
+    simpl. f_equal. induction kvs as [|[k x] kvs IH]; [reflexivity|]. simpl. now rewrite IH.
+  Qed.
+
+  Lemma eval_items l :
+    Forall eval_ok l ->
+    (fix go (l : list ast) : res (list json) :=
+       match l with
+       | [] => ROk []
+       | x :: r => rbind2 (eval x) (go r) cons
+       end) (map ast_of l) = ROk (map norm l).
+  Proof.
+    intros Hl. induction Hl as [|x l Hx Hl IH]; [reflexivity|].
+    cbn [map]. rewrite IH. unfold eval_ok in Hx. rewrite Hx. reflexivity.
+  Qed.
+
+  Lemma eval_entries kvs :
+    Forall (fun kx => eval_ok (snd kx)) kvs ->
+    (fix go (l : list (ast * ast)) : res (list (string * json)) :=
+       match l with
+       | [] => ROk []
+       | (k, x) :: r => rbind2 (rbind2 (eval_key k) (eval x) pair) (go r) cons
+       end) (map ast_entry kvs) = ROk (map norm_entry kvs).
+  Proof.
+    intros Hl. induction Hl as [|[k x] l Hx Hl IH]; [reflexivity|].
+    cbn [map ast_entry fst snd]. rewrite IH. cbn [snd] in Hx. unfold eval_ok in Hx.
+    rewrite Hx, eval_key_str_tok, str_txt. reflexivity.
+  Qed.
+
+  Lemma norm_entry_keys kvs : map fst (map norm_entry kvs) = map fst kvs.
+  Proof. induction kvs as [|[k x] kvs IH]; [reflexivity|]. simpl. now rewrite IH. Qed.
+
+  Theorem eval_ast_of v :
+    wf v = true -> in_range v = true -> eval_ok v.
+  Proof.
+    induction v as [| b | z | m e | s | l IH | kvs IH] using json_ind'; intros Hw Hr; unfold eval_ok.
+    - reflexivity.
+    - now destruct b.
+    - cbn [ast_of eval eval_token norm]. rewrite print_Z_value. simpl in Hr. now rewrite Hr.
+    - cbn [ast_of eval eval_token norm]. simpl in Hr. now rewrite (fprint_parse m e Hr).
+    - cbn [ast_of eval norm]. now apply eval_scalar_tok.
+    - simpl in Hw, Hr. apply forallb_Forall in Hw. apply forallb_Forall in Hr.
+      assert (Forall eval_ok l) as Hl.
+      { rewrite Forall_forall in *. intros x Hx. apply IH; auto. }
+      cbn [ast_of eval norm]. now rewrite (eval_items l Hl).
+    - apply wf_map in Hw as [Hnd Hw]. apply in_range_map in Hr.
+      assert (Forall (fun kx => eval_ok (snd kx)) kvs) as Hl.
+      { rewrite Forall_forall in *. intros x Hx. apply IH; auto. }
+      rewrite ast_of_map, norm_map. cbn [eval]. rewrite (eval_entries kvs Hl).
+      now rewrite norm_entry_keys, Hnd.
+  Qed.
+
+  (* ---------------------------------------------------------------- *)
+  (* the round trip                                                    *)
+  (* ---------------------------------------------------------------- *)
+
+  Lemma lapp_ok ts l : lapp ts (LexOk l) = LexOk (ts ++ l).
+  Proof. induction ts as [|t ts IH]; simpl; [reflexivity|now rewrite IH]. Qed.
+
+  Theorem roundtrip v :
+    wf v = true -> in_range v = true -> no_leading_eq v = true ->
+    eval_lit (encode v) = ROk (norm v).
+  Proof.
+    intros Hw Hr Hq. unfold eval_lit.
+    rewrite <- (app_nil_r (encode v)).
+    rewrite (lex_encode v Hr Hq [] eq_refl). cbn [lex]. rewrite lapp_ok.
+    unfold parse. rewrite (parse_tokens_encode v [] PWantVal [] (or_introl eq_refl)).
+    unfold after. cbn [reduce fst snd run].
+    exact (eval_ast_of v Hw Hr).
+  Qed.
+
+  (* a string (as a value that is not a numeral, or as a map key) comes back
+     character for character *)
+  Theorem string_roundtrip (t : text) :
+    eval_lit (encode_str t) = ROk (JStr (str t)).
+  Proof.
+    unfold eval_lit. rewrite <- (app_nil_r (encode_str t)).
+    rewrite (lex_encode_str t [] eq_refl). cbn [lex lcons].
+    unfold parse. rewrite (run_lit _ [] PWantVal [] (str_tok_lit t) (or_introl eq_refl)).
+    unfold after. cbn [reduce fst snd run eval]. apply eval_str_tok.
+  Qed.
+
+  (* the keys of a map come back unchanged and in order *)
+  Theorem keys_roundtrip kvs :
+    wf (JMap kvs) = true -> in_range (JMap kvs) = true -> no_leading_eq (JMap kvs) = true ->
+    exists kvs', eval_lit (encode (JMap kvs)) = ROk (JMap kvs') /\ map fst kvs' = map fst kvs.
+  Proof.
+    intros Hw Hr Hq. exists (map norm_entry kvs). split.
+    - rewrite <- norm_map. now apply roundtrip.
+    - apply norm_entry_keys.
+  Qed.
+End RoundTrip.
+
+(* norm is the identity on everything but numeral strings *)
+Lemma norm_str_nonnumeral s : numeral_kind (txt s) = None -> norm_str s = JStr s.
+Proof. unfold norm_str. now intros ->. Qed.
+
+Lemma norm_str_int s :
+  numeral_kind (txt s) = Some KInt -> norm_str s = JInt (int_of_text (txt s)).
+Proof. unfold norm_str. now intros ->. Qed.
+
+Lemma norm_str_float s m e :
+  numeral_kind (txt s) = Some KFloat -> fparse (txt s) = Some (m, e) -> norm_str s = JFloat m e.
+Proof. unfold norm_str. now intros -> ->. Qed.
